@@ -11,6 +11,46 @@ Open Scope string_scope.
 Definition guarded_ok (g : state -> bool) (f : sem) : Prop :=
   forall p w s w' s', g s = true -> f p w s = Ok (w', s') -> only_pops s s' /\ w' = w.
 
+(* ---- FLOATVECTOR./ : a zero divisor over the second vector makes the element-wise loop give up ---- *)
+Section ZeroOver.
+  Context {FO : FloatOps}.
+  Let dv := (fun x t : f32 => if feq t f_zero then None else Some (fdiv x t)).
+  Open Scope Z_scope.
+
+  Lemma ov_loop_inv_true off size top : forall i acc, snd (ov_loop dv off size top i acc true) = true.
+  Proof.
+    induction top as [|t r IH]; intros i acc; cbn [ov_loop]; [reflexivity|].
+    destruct (offset_index i off size) as [j|]; [|apply IH].
+    destruct (nth_error acc (Z.to_nat j)) as [x|]; [|apply IH].
+    destruct (dv x t); apply IH.
+  Qed.
+
+  Lemma zero_over_loop off top : forall i acc inv,
+    zero_over top i off (zlen acc) = true -> snd (ov_loop dv off (zlen acc) top i acc inv) = true.
+  Proof.
+    induction top as [|t r IH]; intros i acc inv Z0; cbn [zero_over] in Z0; [discriminate Z0|].
+    cbn [ov_loop]. unfold offset_index.
+    destruct ((0 <=? i + off) && (i + off <? zlen acc)) eqn:R.
+    - assert (exists x, nth_error acc (Z.to_nat (i + off)) = Some x) as [x Ex].
+      { destruct (nth_error acc (Z.to_nat (i + off))) as [x|] eqn:E; [now exists x|].
+        apply nth_error_None in E. unfold zlen in R. lia. }
+      rewrite Ex. unfold dv at 1. destruct (feq t f_zero) eqn:F.
+      + apply ov_loop_inv_true.
+      + cbn [andb orb] in Z0.
+        assert (L : zlen (upd acc (Z.to_nat (i + off)) (fdiv x t)) = zlen acc) by (unfold zlen; now rewrite upd_length).
+        rewrite <- L. apply IH. rewrite L. exact Z0.
+    - apply IH. apply orb_prop in Z0 as [Z0|Z0]; [|exact Z0].
+      exfalso. rewrite <- andb_assoc in Z0. apply andb_prop in Z0 as [_ Z0]. congruence.
+  Qed.
+
+  Lemma zero_over_run second top off :
+    zero_over top 0 off (zlen second) = true -> overlay_run dv second top off = None.
+  Proof.
+    intros Z0. unfold overlay_run. pose proof (zero_over_loop off top 0 second false Z0) as S.
+    destruct (ov_loop dv off (zlen second) top 0 second false) as [v inv]. cbn [snd] in S. now rewrite S.
+  Qed.
+End ZeroOver.
+
 (* bring the guard hypothesis into the shape of the tests in the bodies *)
 Ltac prep_guard G :=
   repeat match type of G with
@@ -21,6 +61,7 @@ Ltac prep_guard G :=
 Ltac use_guard G H :=
   try rewrite G in H;
   repeat match goal with E : bind_get _ _ = _ |- _ => rewrite E in H; clear E end;
+  try (rewrite (zero_over_run _ _ _ G) in H);
   cbv beta iota delta [negb orb andb] in H; cbn [fst snd] in H.
 
 Ltac guard_body unf :=
